@@ -330,7 +330,7 @@ func (e *Engine) loadElem(st *State, sv Val, idx Term) Val {
 	et := resolve(elemOfSlice(sv.T), nil)
 	ls := e.lay.Leaves(et)
 	out := Val{T: et, L: make([]Term, len(ls))}
-	pos := Add(sv.L[1], idx)
+	pos := Add(sv.L[1], e.idxWrap(idx))
 	for i := range ls {
 		h := e.getSliceHeap(st, et, i)
 		out.L[i] = Select(Select(h, sv.L[0]), pos)
@@ -412,6 +412,18 @@ func (e *Engine) storeLoc(st *State, loc *Loc, v Val) {
 			e.setSliceHeap(st, loc.ElemT, loc.Off+i, e.nameTerm(st, e.sliceHeapKey(loc.ElemT, loc.Off+i), Store(h, loc.Base, Store(row, loc.Idx, v.L[i]))))
 		}
 	}
+}
+
+// idxWrap marks an element index with the identity function idx so that
+// quantifiers over element positions have a robust instantiation trigger
+// (arithmetic inside select terms is normalised away by the solvers).
+func (e *Engine) idxWrap(i Term) Term {
+	if isNumeral(i) {
+		return i
+	}
+	f := e.ctx.Fun("idx", []Sort{SInt}, SInt)
+	e.ctx.Axiom("idx_id", "(forall ((x Int)) (! (= (idx x) x) :pattern ((idx x))))")
+	return T(SInt, "(%s %s)", f, i.S)
 }
 
 // locOf turns a pointer value into a location.
